@@ -22,7 +22,7 @@ import itertools
 import struct
 
 STREAMS = ['binary-cuts', 'binary-random', 'binary-coalesced', 'binary-malformed',
-           'lines-scripted', 'handoff-real-client', 'handoff-real-server', 'handoff-cuts', 'handoff-bigtail', 'handoff-stub', 'binary-unparsable']
+           'lines-scripted', 'handoff-real-client', 'handoff-real-server', 'handoff-cuts', 'handoff-bigtail', 'handoff-stub', 'binary-unparsable', 'limit-scaled']
 THEOREMS = ['binary_partition_independent', 'frames_of_messages', 'line_partition_independent',
             'handoff', 'loop_bounded', 'delivers_messages_sent', 'delivers_messages_sent_after_handshake',
             'model_control_flow_matches_source']
@@ -300,7 +300,7 @@ def _make_classes():
             self.raws = []
 
         def rawDBusMessageReceived(self, raw):
-            self.effects.append('M' + (bytes(raw).hex() or '-'))
+            self.effects.append('M' + (bytes(raw).hex() or '-') if len(raw) < 10 ** 7 else 'M<%d bytes>' % len(raw))
             self.raws.append(bytes(raw))
             try:
                 protocol.BasicDBusProtocol.rawDBusMessageReceived(self, raw)
@@ -446,9 +446,13 @@ def observe(ctx, sc):
     tr.loseConnection = lose
 
     crashed = None
-    for rd in sc['reads']:
+    if 'max_msg' in sc:
+        # the class constant lowered for this connection: code that consults it while framing is exercised
+        # at this scale; the unchanged dataReceived never reads it
+        p.MAX_MSG_LENGTH = sc['max_msg']
+    for rd in (sc.get('_reads') or sc['reads']):
         try:
-            p.dataReceived(bytes.fromhex(rd))
+            p.dataReceived(rd if isinstance(rd, bytes) else bytes.fromhex(rd))
         except Exception as e:
             crashed = type(e).__name__
             p.effects.append('!')
@@ -503,7 +507,7 @@ def refused_by_authenticator(sc, authenticated, effects, script):
 
 def classify(sc, obs):
     """Key of a violation of the oracle on scenario sc (None = property holds)."""
-    sent = [bytes.fromhex(h) for h in sc['sent']]
+    sent = sc.get('_sent') or [bytes.fromhex(h) for h in sc['sent']]
     if sc['mode'] != 'binary' and refused_by_authenticator(sc, obs['authenticated'], obs['effects'], obs['script']):
         return None, None            # the AUTHENTICATOR did not accept the handshake: nothing for C04 to judge
     if 'bad_index' in sc:
@@ -519,7 +523,9 @@ def classify(sc, obs):
     what = 'delivered %d messages, sent %d' % (len(obs['raws']), len(sent))
     if obs['crashed']:
         what += '; %s escaped dataReceived' % obs['crashed']
-    reads = [bytes.fromhex(r) for r in sc['reads']]
+    reads = sc.get('_reads') or [bytes.fromhex(r) for r in sc['reads']]
+    if 'max_msg' in sc or 'compact_huge' in sc:
+        return 'size-limit-applied-to-buffer', ('messages within the size limit, the buffer as a whole over it: ' + what)
     if sc['mode'] == 'binary':
         if obs['crashed'] == 'RecursionError' or (obs['crashed'] and max(len(r) for r in reads) > 10000):
             return 'coalesced-read-recursion', 'many complete messages in one read: ' + what
@@ -563,9 +569,23 @@ class Batch:
         if not items:
             return
         obs = [observe(ctx, sc) for _, sc, _, _ in items]
-        out = ctx.model([model_line(sc, o['script']) for (_, sc, _, _), o in zip(items, obs)])
+        with_model = [k for k, (_, sc, _, _) in enumerate(items) if not sc.get('no_model')]
+        mo = ctx.model([model_line(items[k][1], obs[k]['script']) for k in with_model])
+        out = None
+        if mo is not None:
+            out = [None] * len(items)
+            for k, line in zip(with_model, mo):
+                out[k] = line
         for k, ((stream, sc, oracle, sample), o) in enumerate(zip(items, obs)):
             nontrivial = bool(o['effects'])
+            if 'compact_huge' in sc:
+                ctx.case(stream, sample={'mode': sc['mode'], 'compact_huge': sc['compact_huge']})
+                key, what = classify(sc, o)
+                if key:
+                    ctx.violation(key, what, inp=shrink_sc(sc), observed={'n_delivered': len(o['raws']),
+                                                                         'exception': o['crashed']},
+                                  expected={'n_sent': len(sc['_sent']), 'rule': 'delivered == sent, in order'})
+                continue
             small = sum(len(r) for r in sc['reads']) <= 600
             ctx.case(stream, sample=({'mode': sc['mode'], 'reads': sc['reads']} if small else
                                      {'mode': sc['mode'], 'reads': len(sc['reads']),
@@ -599,7 +619,7 @@ class Batch:
             if oracle and sc['mode'] != 'binary' and refused_by_authenticator(sc, o['authenticated'], o['effects'],
                                                                                 o['script']):
                 ctx.stat('%s:not-authenticated(S3 only)' % stream)
-            if out is not None:
+            if out is not None and out[k] is not None:
                 il = impl_line(o)
                 ml = strip_endian(out[k])
                 if o['parse_failed'] and o['crashed']:
@@ -631,6 +651,8 @@ def bucket(n):
 
 def shrink_sc(sc):
     """Scenarios are reported as they are; very large ones keep their structure in a compact form."""
+    if 'compact_huge' in sc:
+        return {'mode': sc['mode'], 'compact_huge': sc['compact_huge']}
     tot = sum(len(r) for r in sc['reads'])
     if tot <= 20000:
         return sc
@@ -640,8 +662,27 @@ def shrink_sc(sc):
     return d
 
 
+def huge_scenario(size, partition):
+    """One message of `size` bytes (a method return with one long string) followed by two small ones, under
+    partition 0 (everything in one read), 1 (cut at the end of the big message), 2 (the read that completes the
+    big message also carries the following ones).  Kept as bytes; no model run (the model has no size limit)."""
+    _, message, _, _ = _mods()
+    probe = message.MethodReturnMessage(1, body=['a' * 8], signature='s')
+    m = message.MethodReturnMessage(1, body=['a' * (size - (len(probe.rawMessage) - 8))], signature='s')
+    small1 = message.MethodReturnMessage(2573, body=['x\r\ny'], signature='s')
+    small2 = message.MethodReturnMessage(3, body=[7], signature='u')
+    sent = [m.rawMessage, small1.rawMessage, small2.rawMessage]
+    assert len(sent[0]) == size, (len(sent[0]), size)
+    stream = b''.join(sent)
+    reads = [[stream], [stream[:size], stream[size:]], [stream[:size - 100], stream[size - 100:]]][partition]
+    return {'mode': 'binary', 'compact_huge': {'size': size, 'partition': partition}, '_reads': reads,
+            '_sent': sent, 'reads': [], 'sent': [], 'no_model': True}
+
+
 def expand(sc):
     """Inverse of the compact form used for huge coalesced reads."""
+    if 'compact_huge' in sc and '_reads' not in sc:
+        return huge_scenario(sc['compact_huge']['size'], sc['compact_huge']['partition'])
     if 'compact' in sc and 'reads' not in sc:
         c = sc['compact']
         msgs = [bytes.fromhex(h) for h in c['messages']]
@@ -725,6 +766,44 @@ def stream_binary_huge(ctx, B):
         ctx.stat('binary-coalesced:message-over-1MiB')
         B.add('binary-coalesced', mk_binary(raws, reads))
         B.flush()
+
+
+def stream_limit(ctx, B):
+    """(quick and thorough) `limit-scaled`: MAX_MSG_LENGTH lowered to 4096 on the connection; messages up to
+    that size followed by small ones, under every kind of partition - all of them within the limit, so all
+    must be delivered whatever the cutting.  (thorough) one real message of 2**27 - 64 bytes followed by two
+    small ones, under three partitions (0.5 GiB, a few seconds each; implementation and oracle only)."""
+    rng = ctx.rng
+    _, message, _, _ = _mods()
+    LIM = 4096
+    n = ctx.scale(quick=60, thorough=1500)
+    for i in range(n):
+        probe = message.MethodReturnMessage(1, body=['a' * 8], signature='s')
+        size = rng.choice([LIM, LIM - 1, LIM - 8, LIM - 64, LIM - 500, 3000])
+        m = message.MethodReturnMessage(1, body=['a' * (size - (len(probe.rawMessage) - 8))], signature='s')
+        m.serial = rng.choice([1, 2573])
+        big_first = rng.random() < 0.7
+        smalls = [gen_message(rng, short=True)[0] for _ in range(rng.choice([1, 2, 5]))]
+        raws = ([serialize(m, rng.random() < 0.5)] + smalls) if big_first else (smalls[:1] + [serialize(m, False)] + smalls[1:])
+        stream = b''.join(raws)
+        k = len(raws[0]) if big_first else len(raws[0]) + len(raws[1])
+        for reads in ([stream], [stream[:k], stream[k:]], [stream[:k - 100], stream[k - 100:]],
+                      random_partition(rng, stream)):
+            B.add('limit-scaled', mk_binary(raws, reads, max_msg=LIM))
+    # behind a handshake too (stub authenticator)
+    for i in range(ctx.scale(quick=8, thorough=200)):
+        m = message.MethodReturnMessage(1, body=['a' * (LIM - 100)], signature='s')
+        raws = [serialize(m, False), gen_message(rng, short=True)[0]]
+        hs = b'BEGIN\r\n'
+        for reads in ([hs + b''.join(raws)], [hs, b''.join(raws)], [hs + raws[0][:-50], raws[0][-50:] + raws[1]]):
+            B.add('limit-scaled', {'mode': 'stub-client', 'script': 's', 'reads': [r.hex() for r in reads],
+                                   'sent': [r.hex() for r in raws], 'handshake': hs.hex(), 'max_msg': LIM})
+    B.flush()
+    if ctx.tier == 'thorough':
+        for part in (0, 1, 2):
+            ctx.stat('limit-scaled:real-2**27-64-byte-message')
+            B.add('limit-scaled', huge_scenario(2 ** 27 - 64, part))
+            B.flush()
 
 
 def stream_binary_malformed(ctx, B):
@@ -983,6 +1062,7 @@ def run(ctx):
     stream_handoff_bigtail(ctx, B)
     stream_handoff_stub(ctx, B)
     stream_binary_unparsable(ctx, B)
+    stream_limit(ctx, B)
     B.flush()
     for t in SERIALIZER_NOTES[:3]:
         ctx.note(t)
